@@ -208,6 +208,23 @@ pub fn exec(op: &str, a: &[Vec<u8>]) -> Out {
             }
             Out::Ok(verify_all(&pk, &a[1], &sig, &a[3], a[4][0] & 1 == 1))
         }
+        // [seed, msg, sig, ctx, has_ctx]: the verifiers offered by the SIGNING key (they wrap its verifying key):
+        // verify, verify_strict, Verifier::verify, verify_prehashed
+        "sig.verify_sk" => {
+            let seed = need!(b32(&a[0]));
+            let sig = Signature::from_bytes(&need!(b64(&a[2])));
+            if a[3].len() > 255 {
+                return Out::Rej;
+            }
+            let sk = SigningKey::from_bytes(&seed);
+            let c = if a[4][0] & 1 == 1 { Some(&a[3][..]) } else { None };
+            Out::Ok(vec![
+                sk.verify(&a[1], &sig).is_ok() as u8,
+                sk.verify_strict(&a[1], &sig).is_ok() as u8,
+                Verifier::verify(&sk, &a[1], &sig).is_ok() as u8,
+                sk.verify_prehashed(sha(&a[1]), c, &sig).is_ok() as u8,
+            ])
+        }
         "sig.batch" => {
             // [n_msgs (u16), msgs as (u16 len || bytes)*, sigs (k x 64), keys (m x 32), calls]
             let n = u16::from_le_bytes([a[0][0], a[0][1]]) as usize;
